@@ -9,7 +9,7 @@ From GV.Proofs Require Import StatusProps ClauseProps.
 
 Definition C01_full_statement : Prop :=
   forall re conv prog doc fuel sfuel,
-    match eval_file re conv prog fuel doc, spec_file re prog doc sfuel with
+    match eval_file re conv prog fuel doc, spec_file re (fun _ => true) prog doc sfuel with
     | Done (st, [rec], _), SOk (st', rules) => st = st' /\ compare_rules rules (rule_statuses rec) = None
     | Err _, SOk _ => False
     | Done _, SUndef => False
